@@ -176,6 +176,18 @@ def run(report: Report, tier, seed):
                                   bound=f"{len(ares)} generated signatures x versions 6..10 x frame-pointer settings", cases=sum(r["ran"] for r in ares), distinct_nontrivial=len(ares), failures=len(abad)))
     for b in abad[:1]:
         report.violation(Violation(key=f"abisub:{b['seed']}:{b['version']}:{b['opts']}", what=b["problems"][0][:400], replay={"input": {"abisub": [b["seed"], b["version"], b["opts"]]}, "teal": b.get("teal")}, confirmed_native=True))
+    from . import typesinks
+    tj = typesinks.jobs(tier)
+    with ProcessPoolExecutor(max_workers=16) as ex:
+        tr = list(ex.map(typesinks.case, tj, chunksize=8))
+    tbad = [r for r in tr if r["problem"]]
+    report.bounded.append(Bounded(function="typed storage cells fed a value of the other stack type (ScratchVar.store, abi set, in main routine and in subroutines / frame cells)",
+                                  contract="rejected with a PyTeal error, or the emitted TEAL applies no opcode to a value of a definitely wrong type",
+                                  bound=f"{len(typesinks.SINKS)} sinks x 2 wrong values x main/subroutine x versions 6, 8, 10 x frame pointers default/off", cases=len(tr),
+                                  distinct_nontrivial=sum(1 for r in tr if not r["accepted"]), failures=len(tbad)))
+    for b in tbad[:2]:
+        report.violation(Violation(key=f"typesink:{b['job'][0]}:{b['job'][5]}:{b['job'][6:]}", what=f"type sink {b['job'][0]} <- {b['job'][5]} (in_sub={b['job'][6]}, v{b['job'][7]}, fp={b['job'][8]}): {b['problem']}"[:400],
+                                   replay={"input": {"typesink": b["job"]}, "teal": b.get("teal")}, confirmed_native=True))
     report.extra["explanation"] = "E: type lattice and operator signature tables; P: fragment stack-delta clauses (fragcheck); B: abstract interpretation of generated programs"
     report.settle_refuted(lambda fn, obs: fails[0] if fails else None)
     if known:
@@ -193,8 +205,13 @@ def run(report: Report, tier, seed):
 def replay(data):
     r = data.get("replay") or {}
     nat = r.get("native") or r
+    if (nat.get("input") or {}).get("typesink"):
+        from . import typesinks
+        out = typesinks.case(tuple(nat["input"]["typesink"]))
+        print(out["problem"])
+        return 1 if out["problem"] else 0
     spec = (nat.get("input") or {}).get("spec")
-    if not spec:
+    if not spec and not (nat.get("input") or {}).get("abisub"):
         print("no concrete input; refuted:", [x["id"] for x in r.get("refuted", [])])
         return 1
     if (nat.get("input") or {}).get("abisub"):
